@@ -212,7 +212,7 @@ func c06DispatchGenCases(r *Rand, tier string) []string {
 	// follow mode on files (the channel stays open: each case waits out a quiet period) – a few per run
 	n := 6
 	if tier == "thorough" {
-		n = 40
+		n = 20
 	}
 	for i := 0; i < n; i++ {
 		bits := []byte(fmt.Sprintf("%06b", r.Intn(64)))
